@@ -82,7 +82,8 @@ static void body_run(tctx_t *t, int op)
         pixman_image_composite32(PIXMAN_OP_ADD, t->src32, NULL, t->dst32, 1, 0, 0, 0, 0, 0, DW - 1, DH); break;
     case OP_FILL: {
         pixman_fill(&t->d32[0][0], DW, 32, 1, 0, 2, 2, 0x11223344);
-        pixman_color_t c = { 0x8000, 0x4000, 0x2000, 0xc000 }; pixman_rectangle16_t r = { 0, 1, 2, 1 };
+        /* translucent and different per thread: the fill then goes through a solid source image, not the direct-fill shortcut */
+        pixman_color_t c = { (uint16_t)(0x8000 >> t->tid), (uint16_t)(0x4000 + 0x2100 * t->tid), 0x2000, (uint16_t)(0xc000 - 0x3000 * t->tid) }; pixman_rectangle16_t r = { 0, 1, 2, 1 };
         pixman_image_fill_rectangles(PIXMAN_OP_OVER, t->dst16, &c, 1, &r); break; }
     case OP_REGION: {
         pixman_region32_t a, b; pixman_region32_init_rect(&a, 1, 1, 5, 2); pixman_region32_init_rect(&b, 3, 0, 2, 6);
